@@ -162,6 +162,7 @@ def run(ctx):
     c14.c14_5_trust(ctx, _seen, R="C13.4")
     c13_vec_count(ctx, impls)
     c13_defaults_and_g2(ctx)
+    c13_errors_propagate(ctx, impls)
 
 
 # ------------------------------------------------------------------ C13.1a
@@ -563,8 +564,7 @@ TRUSTED_SITES = {
 }
 
 
-def c13_4(ctx, impls):
-    R = "C13.4"
+def c13_4(ctx, impls, R="C13.4"):
     fb = ctx.fb
     n = 0
     for ty, ms in sorted(impls.items()):
@@ -630,7 +630,7 @@ def c13_vec_count(ctx, impls):
     U.loop_no_skip(ctx, R, b, "vec-count:push-each", pushes, "every iteration pushes one parsed element")
 
 
-def c13_defaults_and_g2(ctx):
+def c13_defaults_and_g2(ctx, R3="C13.3", R2="C13.2"):
     """(a) the provided methods every type inherits: hash() = Sha256 over update_digest(self) and nothing else (in particular
     not over to_bytes(): for version-2 proofs of space the two differ by design), to_bytes() = stream(self) into a fresh Vec;
     (b) G2 decoding has one accepting path -- blst_p2_uncompress succeeded on the whole 96-byte buffer -- so every accepted
@@ -638,7 +638,7 @@ def c13_defaults_and_g2(ctx):
     to_bytes of both point types is the blst compressor."""
     from .. import paths as P
     from .. import apnf
-    R = "C13.3"
+    R = R3
     for nm, want in (("hash", ("call", "('Sha256::finalize', ('after', ('update_digest', 'self', ('Sha256::new',))))", ("new", "update_digest", "finalize"))),):
         b = U.body(ctx, R, "chia_traits::streamable::Streamable::" + nm)
         if not b:
@@ -657,7 +657,7 @@ def c13_defaults_and_g2(ctx):
             rows.add((ex[0], P.ret_class(ev) if ex[0] == "return" else "", str(apnf.N(P.ret_of(ev))) if ex[0] == "return" and P.ret_class(ev) == "Ok" else ""))
         exp = {("return", "Ok", "('Ok', ('after', ('stream', 'self', ('Vec::new',))))"), ("return", "Err", "")}
         ctx.ob(R, "default:to_bytes", rows == exp, "Streamable::to_bytes = stream(self) into a fresh Vec, errors propagated", found=sorted(map(str, rows))[:3])
-    R = "C13.2"
+    R = R2
     b = U.body(ctx, R, "chia_bls::signature::Signature::from_bytes_unchecked")
     if b:
         rows = set()
@@ -677,3 +677,40 @@ def c13_defaults_and_g2(ctx):
             names = [U.flat(n).split("::")[-1] for bi, n, t in b.calls()]
             sw = [x for x in range(b.n) if x in b.reach and b.blocks[x]["t"]["k"] == "switch"]
             ctx.ob(R, "compress:" + ty, names.count(prim) == 1 and not sw, "%s::to_bytes is %s of the point, unconditionally" % (ty, prim), found=names)
+
+
+def c13_errors_propagate(ctx, impls, R="C13.3"):
+    """'input with missing bytes is rejected': inside every Streamable::parse body the result of each nested decode
+    (a field's parse, read_bytes) is propagated with `?` or returned as the function's own result -- never replaced by a default
+    (unwrap_or_default / unwrap_or / ok()): a swallowed error turns truncated input into a value."""
+    from .. import paths as P
+    fb = ctx.fb
+    bad = []
+    n = 0
+    for ty, ms in sorted(impls.items()):
+        f = ms.get("parse")
+        if not f:
+            continue
+        b = Body(f, fb)
+        branches = [strip_all(b.call_term(t)) for bi, nm, t in b.calls() if "Try" in nm and nm.endswith("branch")]
+        rets = [strip_all(b.call_term(rv)) for bi, k, d, rv in b.ret_assignments() if k == "call"]
+        for bi, nm, t in b.calls():
+            fl = U.flat(nm)
+            if not (fl.endswith("Streamable>::parse") or fl.endswith("streamable::read_bytes") or fl.endswith("::parse") and "Streamable" in nm):
+                continue
+            n += 1
+            ct = strip_all(b.call_term(t))
+            used = any(_contains(x, ct) for x in branches) or any(_contains(x, ct) for x in rets)
+            if not used:
+                bad.append("%s: result of %s at %s is not propagated" % (ty, fl.split("::")[-1] + "(" + fl.split(" as ")[0][-30:] + ")", b.where(bi)))
+    ctx.ob(R, "parse-errors-propagate", not bad, "every nested decode inside a Streamable::parse body is propagated with `?` (or is the tail result)",
+           found=bad[:4] or None)
+    ctx.floor(R, "nested decode calls in parse bodies", n, 300)
+
+
+def _contains(t, sub):
+    if t == sub:
+        return True
+    if isinstance(t, tuple):
+        return any(_contains(x, sub) for x in t)
+    return False
